@@ -142,6 +142,8 @@ class Flow:
             return ('str', o['s'])
         if 'v' in o:
             return ('const', int(o['v']), o['ty'])
+        if 'hex' in o:
+            return ('bytes', o['hex'])
         if 'item' in o:
             return ('item', o['item'] + ('#p%d' % o['promoted'] if 'promoted' in o else ''))
         return ('const', None, o.get('ty', '?'))
@@ -267,7 +269,7 @@ def leaves(e, out=None):
     if out is None:
         out = set()
     k = e[0]
-    if k in ('param', 'upvar', 'local', 'const', 'str', 'item', 'fn', 'top', 'sizeof'):
+    if k in ('param', 'upvar', 'local', 'const', 'str', 'item', 'fn', 'top', 'sizeof', 'bytes'):
         out.add(e if k != 'const' else ('const', e[1]))
     elif k == 'field':
         # a field path is itself a leaf when its root is a leaf place
@@ -390,6 +392,8 @@ def show(e, depth=0):
         return repr(e[1])
     if k == 'sizeof':
         return 'size_of<%s>' % e[1].split('::')[-1]
+    if k == 'bytes':
+        return 'bytes:%s…' % e[1][:16]
     if k == 'item':
         return e[1]
     if k == 'fn':
